@@ -224,7 +224,11 @@ func (ap *accountPool) rebuild(detailed *nom.DetailedMomentum) error {
 		addresses = append(addresses, address)
 	}
 
+	// a failure in one account must not stop the rebuild of the accounts after it: the first one is reported
+	var failed error
+
 	ap.log.Debug("started rebuilding account-pool", "momentum-identifier", detailed.Momentum.Identifier())
+accounts:
 	for _, address := range addresses {
 		log := ap.log.New("address", address)
 		log.Debug("start rebuilding")
@@ -260,7 +264,14 @@ func (ap *accountPool) rebuild(detailed *nom.DetailedMomentum) error {
 				Changes: patch,
 			})
 			if err != nil {
-				return errors.Errorf("account pool rebuild error. Unable to re-apply block %v. Reason %v", block.Header(), err)
+				// the uncommitted blocks of this account do not link to its confirmed blocks any more: they are dropped
+				// (the manager is already deleted); the remaining accounts are still rebuilt
+				err = errors.Errorf("account pool rebuild error. Unable to re-apply block %v. Reason %v", block.Header(), err)
+				log.Error("failed to rebuild account", "reason", err)
+				if failed == nil {
+					failed = err
+				}
+				continue accounts
 			}
 		}
 		ap.managers[address] = manager
@@ -269,7 +280,7 @@ func (ap *accountPool) rebuild(detailed *nom.DetailedMomentum) error {
 	}
 
 	ap.log.Debug("finished rebuilding account-pool")
-	return nil
+	return failed
 }
 
 func (ap *accountPool) GetNewMomentumContent() []*nom.AccountBlock {
